@@ -77,7 +77,7 @@ def impl(case):
         c = CircuitTemplate("c", nodes=nodes, edges=edges)
         kw = {"dde_approx": case["dde"]} if case.get("dde") else {}
         try:
-            r = c.run(simulation_time=case["steps"] * dt, step_size=dt, solver="euler", outputs=outs,
+            r = c.run(simulation_time=case["steps"] * dt, step_size=dt, solver=case.get("solver", "euler"), outputs=outs,
                       vectorize=case["vectorize"], float_precision="float64", backend="default", clear=True, verbose=False,
                       in_place=False, **kw)
         except (IndexError, ValueError, KeyError, TypeError, AttributeError, NameError, PyRatesException) as e:
@@ -368,6 +368,81 @@ def gen_conn(rng):
             return case
     raise RuntimeError("generator could not produce an exactly representable Connectivity case")
 
+# ---------------------------------------------------------------------------------------------- adaptive solvers (support stream)
+def impl_adaptive(case):
+    """the circuit under solver='scipy', vectorized and not: {"vec": rows | raised, "non": rows | raised} (rows as exact rationals of the
+    floats).  Under an adaptive step size a plain delay is a past() term (DDE branch), a (delay, spread) edge a gamma chain."""
+    out = {}
+    for key, vec in (("vec", True), ("non", False)):
+        r = impl(dict(case, solver="scipy", vectorize=vec))
+        out[key] = r
+    return out
+
+def adaptive_reference(case):
+    """closed form for the targets whose inputs are all plain-delay / undelayed edges: sources are x(t) = x0 + f*k*t with the history
+    x(t) = x0 for t <= 0 (DDEHistory), delays are NOT discretised under adaptive steps, so
+    v(T) = v0 + f_t * sum_e w_e * (x0*T + f_s*k*max(0, T - d_e)^2 / 2).  -> {node index: [value per stored step]}"""
+    dt = Fr(case["dt"]); nodes = case["nodes"]; ref = {}
+    for j, n in enumerate(nodes):
+        ins = [e for e in case["edges"] if e[1] == j]
+        if n["kind"] != "t" or not ins or any(e[3] != "nokey" and len(e[3]) == 2 for e in ins):
+            continue
+        vals = []
+        for k in range(case["steps"]):
+            T = k * dt; acc = Fr(0)
+            for s_, t_, w, ds in ins:
+                d = Fr(0) if ds == "nokey" else Fr(ds[0])
+                src = nodes[s_]; slope = (src["cls"] + 1) * Fr(src["k"])
+                acc += Fr(w) * (Fr(src["x0"]) * T + slope * max(Fr(0), T - d) ** 2 / 2)
+            vals.append(float(Fr(n["x0"]) + (n["cls"] + 1) * acc))
+        ref[j] = vals
+    return ref
+
+def gen_adaptive(rng):
+    """circuits of the mixkinds / valid streams (plain delays >= 2 dt, (delay, spread) edges, undelayed edges; dde_approx = 0) for the
+    adaptive solvers"""
+    while True:
+        c = gen_case(rng, rng.choice(["mixkinds", "mixkinds", "valid"]))
+        if c.get("taps") or c.get("twins") or c.get("int_edges") or c.get("dde"):
+            continue
+        if not any(e[3] != "nokey" for e in c["edges"]):
+            continue
+        # (without vectorization parallel edges are fine since D94; keep the circuit as generated, both compilations are run)
+        return dict(c, adaptive=True)
+
+ADAPTIVE_TOL = 1e-4          # labelled tolerance: dopri5 / RK45 are not exact; a dropped or mis-assigned delay changes values by >= 1e-2
+
+def adaptive_verdict(case, out):
+    """-> None when fine, else a description.  No exception; vectorized == non-vectorized; closed form for plain-delay targets."""
+    for key in ("vec", "non"):
+        if isinstance(out[key], dict):
+            return f"{key}: raised {out[key].get('raised') or out[key].get('err')}: {out[key].get('msg', '')[:120]}"
+    V = [[float(Fr(x)) for x in row] for row in out["vec"]]; N = [[float(Fr(x)) for x in row] for row in out["non"]]
+    if len(V) != len(N):
+        return f"row counts differ: vectorized {len(V)}, non-vectorized {len(N)}"
+    for k, (rv, rn) in enumerate(zip(V, N)):
+        for j, (a, b) in enumerate(zip(rv, rn)):
+            if abs(a - b) > 10 * ADAPTIVE_TOL * (1 + abs(b)):
+                return f"vectorized != non-vectorized at row {k}, node {j}: {a} vs {b}"
+    for j, vals in adaptive_reference(case).items():
+        for k, want in enumerate(vals[:len(N)]):
+            for name, rows in (("vectorized", V), ("non-vectorized", N)):
+                if abs(rows[k][j] - want) > ADAPTIVE_TOL * (1 + abs(want)):
+                    return f"{name}: node {j} at row {k} is {rows[k][j]}, closed form of the delayed input gives {want}"
+    return None
+
+def adaptive_guards(ctx, cases, tag):
+    """indices where g_dde_slots_aligned is false (vectorized form of the circuit)"""
+    bad = []
+    shard = 40
+    for s in range(0, len(cases), shard):
+        terms = [coq_circuit(dict(c, vectorize=True)) for c in cases[s:s + shard]]
+        body = "Definition cs := " + clist(terms) + ".\nEval vm_compute in (mismatches g_dde_slots_aligned cs).\n"
+        ls = parse_nat_lists(coq_eval(ctx, f"c11a_{tag}_{s}", HEADER, body))
+        assert len(ls) == 1, ls
+        bad += [s + i for i in ls[0]]
+    return bad
+
 def nontrivial(case):
     return len({tuple(e[3]) for e in case["edges"] if e[3] != "nokey" and len(e[3]) == 2}) >= 2
 
@@ -460,6 +535,9 @@ def model_outputs(ctx, case, tag):
         return f"(model evaluation failed: {e})"
 
 def fails(ctx, case, tag):
+    if case.get("adaptive"):
+        r = run_impl(ctx, "c11", "impl_adaptive", [case], nworkers=1, per_case_timeout=180)[0]
+        return ("err" in r) or adaptive_verdict(case, r) is not None, r
     r = run_impl(ctx, "c11", "impl_conn" if case.get("connectivity") else "impl", [case], nworkers=1)[0]
     if isinstance(r, dict) and "err" in r:
         return True, r
@@ -496,6 +574,20 @@ def check(ctx):
         for kind in ("plain", "dde", "kernel", "shared", "perm", "tap", "intdelay", "mixkeys", "twin", "mixkinds", "mixkinds"):
             cases += [gen_case(ctx.rng, kind) for _ in range(n_viol)]
         cases += [gen_conn(ctx.rng) for _ in range(n_valid * 2 // 5)]
+    acases = [c for c in cases if c.get("adaptive")]; cases = [c for c in cases if not c.get("adaptive")]
+    if not ctx.replay:
+        acases += [gen_adaptive(ctx.rng) for _ in range(n_valid // 4)]
+    if acases:
+        aouts = run_impl(ctx, "c11", "impl_adaptive", acases, per_case_timeout=180)
+        verdicts = [("worker error: " + str(o.get("err"))) if "err" in o else adaptive_verdict(c, o) for c, o in zip(acases, aouts)]
+        gfa = set(adaptive_guards(ctx, acases, "main"))
+        listed = {f.get("guard") for f in known_findings("C11")}
+        fresh = [i for i, v in enumerate(verdicts) if v and not (i in gfa and "g_dde_slots_aligned" in listed)]
+        ctx.note(f"adaptive-solver stream (solver='scipy', vectorized and not; labelled tolerance {ADAPTIVE_TOL}): {len(acases)} circuits, "
+                 f"{sum(1 for v in verdicts if v)} failing, {len(gfa)} outside g_dde_slots_aligned "
+                 f"({sum(1 for i in gfa if verdicts[i])} of them failing), unexplained failures {len(fresh)}")
+        for i in fresh[:2]:
+            violation(ctx, write_replay(ctx, "counterexample", dict(case=acases[i], what=verdicts[i], implementation_output=aouts[i])))
     is_conn = [bool(c.get("connectivity")) for c in cases]
     ei = [i for i in range(len(cases)) if not is_conn[i]]; ci = [i for i in range(len(cases)) if is_conn[i]]
     outs = [None] * len(cases)
@@ -538,7 +630,7 @@ def check(ctx):
                    show=lambda c: dict(implementation_output=fails(ctx, c, "show")[1], model_output=model_outputs(ctx, c, "show")))
     nt = {canon(c) for i, c in enumerate(cases) if nontrivial(c) and i in in_guard}
     orders = sorted({rhe((Fr(e[3][0]) / Fr(e[3][1])) ** 2) for c in cases for e in c["edges"] if e[3] != "nokey" and len(e[3]) == 2})
-    hist = dict(with_taps=sum(1 for c in cases if c.get("taps")), int_delays=sum(1 for c in cases if c.get("int_edges") or c.get("int_conn")),
+    hist = dict(adaptive_stream=len(acases), with_taps=sum(1 for c in cases if c.get("taps")), int_delays=sum(1 for c in cases if c.get("int_edges") or c.get("int_conn")),
                 connectivity=len(ci), connectivity_multi=sum(1 for i in ci if len(cases[i]["conns"]) > 1),
                 connectivity_same_delay_other_spread=sum(1 for i in ci if any(a["d"] == b["d"] and a["s"] != b["s"] for a in cases[i]["conns"] for b in cases[i]["conns"])), vectorized=sum(1 for c in cases if c["vectorize"]), dde_approx=sorted({c.get("dde", 0) for c in cases}),
                 in_guard=len(in_guard), guard_violating={g: len(gfalse[g]) for g in GUARDS}, orders=orders,
